@@ -672,11 +672,14 @@ class FieldsJson(FieldValueBase):
 
         attr_fields_dict = attr.fields_dict(cls)
 
-        return cls(**{
-            attribute_name: raw_values[validator_class.get_canonical_name()]
-            for attribute_name, validator_class in cls._get_attr_to_validator_type_dict(attr_fields_dict).items()
-            if validator_class.get_canonical_name() in raw_values
-        }), len(parsable)
+        try:
+            return cls(**{
+                attribute_name: raw_values[validator_class.get_canonical_name()]
+                for attribute_name, validator_class in cls._get_attr_to_validator_type_dict(attr_fields_dict).items()
+                if validator_class.get_canonical_name() in raw_values
+            }), len(parsable)
+        except TypeError as e:
+            six.raise_from(InvalidValue(bytes(parsable).decode('ascii', 'replace'), cls, 'value'), e)
 
     def compose(self):
         attr_fields_dict = attr.fields_dict(type(self))
@@ -750,7 +753,10 @@ class FieldValueMultiple(FieldValueBase):
         cls._parse_basic_params(attr_to_component_name_dict, attr_fields_dict_basic, components, params)
         cls._parse_extensions(attr_to_component_name_dict, extension, components, params)
 
-        return cls(**params), len(parsable)
+        try:
+            return cls(**params), len(parsable)
+        except TypeError as e:
+            six.raise_from(InvalidValue(bytes(parsable).decode('ascii', 'replace'), cls, 'value'), e)
 
     def compose(self):
         composer = ComposerText()
